@@ -527,3 +527,11 @@ def variant(base, prop: str, prefixes):
 C02_PREFIX = ("C02-",)
 CONTRACTS = [variant(AsyncScope, "C02", C02_PREFIX), variant(SyncScope, "C02", C02_PREFIX),
              variant(StateBlock, "C02", C02_PREFIX), variant(TaskGroupExit, "C02", C02_PREFIX)]
+
+
+def extra_contracts():
+    """Borrowed late (contracts/C08.py imports this module): the scope scenarios treat `Disposables.__aenter__` as a callee
+    that leaves the caller's context variables alone - which holds because every disposable is entered in a gather child, a
+    task with its own copy of the context (T-GATHER, T-CV)."""
+    from .C08 import Enter
+    return [variant(Enter, "C02", ("P6:",))]
